@@ -308,6 +308,42 @@ UNITS = {
         ],
         "contracts": ["contracts/mime.vc"],
     },
+    "json_array": {
+        "preludes": ["shims/core.rs", "shims/bytes.rs", "shims/cursor_json.rs", "shims/strslice.rs"],
+        "specs": ["contracts/spec/json.rs"],
+        "sources": [
+            SYMBOL_SRC,
+            ("src/json/array/mod.rs", ["struct:RawUnprocessedJSONArray", "fn:RawUnprocessedJSONArray::bytes_to_string", "fn:RawUnprocessedJSONArray::byte_to_char",
+                                       "fn:RawUnprocessedJSONArray::split_into_vector_of_strings"]),
+            ("src/json/array/integer/mod.rs", ["struct:JSONArrayOfIntegers"] + ["fn:JSONArrayOfIntegers::parse_as_list_" + t for t in ("i128", "i64", "i32", "i16", "i8", "u128", "u64", "u32", "u16", "u8")]),
+            ("src/json/array/boolean/mod.rs", ["struct:JSONArrayOfBooleans", "fn:JSONArrayOfBooleans::parse_as_list_bool"]),
+            ("src/json/array/float/mod.rs", ["struct:JSONArrayOfFloats", "fn:JSONArrayOfFloats::parse_as_list_f64", "fn:JSONArrayOfFloats::parse_as_list_f32"]),
+            ("src/json/array/string/mod.rs", ["struct:JSONArrayOfStrings", "fn:JSONArrayOfStrings::parse_as_list_string"]),
+        ],
+        "contracts": ["contracts/json_array.vc"],
+    },
+    "json_object": {
+        "preludes": ["shims/core.rs", "shims/bytes.rs", "shims/cursor_json.rs"],
+        "specs": [],
+        "sources": [
+            SYMBOL_SRC,
+            ("src/ext/string_ext/mod.rs", ["struct:StringExt", "fn:StringExt::filter_ascii_control_characters:assume"]),
+            ("src/null/mod.rs", ["struct:Null"]),
+            ("src/json/mod.rs", ["struct:JSONType", "const:JSON_TYPE"]),
+            ("src/json/property/mod.rs", ["struct:JSONProperty", "struct:JSONValue", "fn:JSONProperty::parse"]),
+            ("src/json/object/mod.rs", ["struct:JSON", "fn:JSON::parse_as_properties"]),
+        ],
+        "contracts": ["contracts/json_object.vc"],
+    },
+    "urlpath": {
+        "preludes": ["shims/core.rs", "shims/bytes.rs", "shims/urlpath.rs"],
+        "specs": ["contracts/spec/urlpath.rs"],
+        "sources": [
+            SYMBOL_SRC,
+            ("src/url/path/mod.rs", ["struct:UrlPath", "struct:Part", "fn:UrlPath::extract_parts_from_pattern"]),
+        ],
+        "contracts": ["contracts/urlpath.vc"],
+    },
 }
 for k, v in UNITS.items():
     v["name"] = k
@@ -425,7 +461,7 @@ PROPS = {
         ],
     },
     "C20": {
-        "units": ["response_parse", "range_parse", "base64_decode", "request_parse", "multipart"],
+        "units": ["response_parse", "range_parse", "base64_decode", "request_parse", "multipart", "json_array", "json_object", "urlpath"],
         "level": "proof",
         "falsifier": ["parsers", "range", "stack"],
         "always_explore": ["parsers", "stack"],
@@ -436,8 +472,12 @@ PROPS = {
             "Response::parse_raw_response_via_cursor / termination / decreases rem(old(cursor)).len()",
             "Range::parse_multipart_body_with_boundary / termination + no overflow / decreases rem(old(cursor)).len(); loop: rem(cursor).len() + (is_not_boundary ? 1 : 0)",
             "Base64::decode / every input returns Ok or Err (functional contract proved)",
+            "JSON::parse_as_properties / termination of the 7 nested scanner loops (measure: bytes left in the cursor), no overflow of the i32 bracket counters, key_value_pair never empty at chars().last().unwrap()",
+            "RawUnprocessedJSONArray::split_into_vector_of_strings / termination of 9 loops + postcondition items_ok (every item non-blank, a quoted item has 2+ characters) which JSONArrayOfStrings::parse_as_list_string needs for its slicing string[1..len-1]",
+            "UrlPath::extract_parts_from_pattern / postcondition / parts_ok(res): tokens and static texts alternate, static texts are non-empty, tokens have a name",
         ],
-        "assumptions": ["entry points NOT yet under contract (listed so that the claim is not read as complete): JSON object/array parsers, config-file reader, UrlPath::extract_parts_from_pattern",
+        "assumptions": ["entry points NOT under contract (listed so that the claim is not read as complete; explored by the `parsers` routine on every run): the config-file reader, UrlPath::is_matching / extract / build (their pattern parser UrlPath::extract_parts_from_pattern IS under contract and guarantees the alternation of parts they unwrap on), JSONArrayOfObjects::from_json / JSONArrayOfNulls (user traits), Header / Content-Range value parsers other than those of the response reader",
+                        "JSON scanners (JSON::parse_as_properties, RawUnprocessedJSONArray::split_into_vector_of_strings, the typed list readers): totality is proved for inputs below 2 GiB (i32 bracket counters); std::io::Cursor::read_exact / read_until, char::is_numeric / is_ascii_control / is_whitespace, <T as FromStr> are assumed std contracts",
                         "termination is proved; STACK DEPTH is not expressible in a contract: Request::parse, Response::parse, FormMultipartData::parse and the multipart/byteranges reader recurse once per line / per part and overflow a 2 MiB thread stack for inputs of 0.2 - 1 MB (known findings, reproduced on every run by the `stack` routine in child processes)"],
     },
     "C01": {
